@@ -595,3 +595,33 @@ pub fn for_all_mutants(e: &Enc, big: bool, f: &mut dyn FnMut(&[u8])) {
         }
     }
 }
+
+/// The byte strings of DESIGN.md 3.4 for one type, collected (used by the out-of-process
+/// engines; the Rust engine streams the same enumeration).
+pub fn input_set(m: &Model, ty: &str, big: bool, thorough: bool, max_values: usize) -> Vec<Vec<u8>> {
+    input_set_b(m, ty, big, thorough, max_values, if thorough { 300 } else { 20 })
+}
+
+pub fn input_set_b(m: &Model, ty: &str, big: bool, thorough: bool, max_values: usize, max_array_len: usize) -> Vec<Vec<u8>> {
+    let mut seen: std::collections::HashSet<Vec<u8>> = std::collections::HashSet::new();
+    let mut out: Vec<Vec<u8>> = vec![];
+    let mut push = |b: &[u8]| {
+        if seen.insert(b.to_vec()) {
+            out.push(b.to_vec());
+        }
+    };
+    for_all_strings(&B_ALPHABET, if thorough { 4 } else { 3 }, &mut push);
+    let full: Vec<u8> = (0..=255u8).collect();
+    for_all_strings(&full, 1, &mut push);
+    let vg = ValueGen { m, budget: if thorough { Budget { max_array_len, ..Budget::thorough() } } else { Budget { max_values: 120, pairs: true, nested_alts: 3, max_array_len } } };
+    let vals = vg.values(ty);
+    for v in vals.ok.iter().take(max_values) {
+        if let Ok(e) = m.encode(ty, v) {
+            if e.bytes.len() <= 2048 {
+                push(&e.bytes);
+                for_all_mutants(&e, big, &mut push);
+            }
+        }
+    }
+    out
+}
